@@ -463,6 +463,9 @@ def object_outcome(o):
 def oracle_document(run, where, doc, case, feats, extra=None):
     """the property on one emitted document: well-formed and DTD-valid"""
     v, msg = judge(doc)
+    if not (extra or {}).get('cdata') and not case.get('cdata'):
+        docs = run.__dict__.setdefault('docs', [])
+        docs.append((where, doc if isinstance(doc, str) else doc.decode('utf-8', 'replace'), v))
     if v == 'ok':
         return True
     sig = {'kind': 'document_' + v, 'where': where, 'class': invalid_class(msg) if v == 'invalid' else 'not_wellformed',
@@ -669,7 +672,6 @@ def make_conn(dn, pull=False):
     return conn, cap
 
 
-HEADER_OK = re.compile(r'\S[^\r\n]*|')       # requests.utils._VALID_HEADER_VALUE_RE_STR (used with fullmatch)
 
 
 def call_real(name, dn, args, kwargs, pull=False):
@@ -693,11 +695,16 @@ def call_real(name, dn, args, kwargs, pull=False):
         return {'exc': None}
     rq = cap.reqs[0]
     hdrs = {k: v for k, v in rq.headers.items() if k.startswith('CIM') or k == 'Pragma'}
-    for k, v in hdrs.items():          # what http.client does next: latin-1; a failure there is a local exception
-        try:
-            (v if isinstance(v, str) else v.decode('latin-1')).encode('latin-1')
-        except UnicodeEncodeError:
-            return {'exc': 'UnicodeEncodeError', 'stage': 'http.client header encoding'}
+    # what happens next in a real send: http.client.HTTPConnection.putrequest/putheader (they only fill a buffer;
+    # no socket is opened) - the real third-party code decides, nothing is emulated here
+    import http.client
+    hc = http.client.HTTPConnection('localhost', 59988)
+    try:
+        hc.putrequest('POST', '/cimom')
+        for k, v in rq.headers.items():
+            hc.putheader(k, v)
+    except Exception as e:
+        return {'exc': type(e).__name__, 'stage': 'http.client.putheader'}
     body = rq.body if isinstance(rq.body, bytes) else rq.body.encode('utf-8')
     return {'headers': hdrs, 'body': body, 'content_type': rq.headers.get('Content-type'),
             'content_length': rq.headers.get('Content-length')}
@@ -1296,17 +1303,8 @@ def part_requests(run, n, n_poison):
             run.count('req:oracle_only')
             continue
         ans = answers[i]
-        # third-party steps between the model's result and the wire: requests' header validation, http.client latin-1
-        if 'ok' in ans:
-            hv = [common.from_cps(v) for _, v in ans['ok']['headers']]
-            if any(not HEADER_OK.fullmatch(v) for v in hv):
-                ans = {'exc': 'ConnectionError'}
-            else:
-                try:
-                    for v in hv:
-                        v.encode('latin-1')
-                except UnicodeEncodeError:
-                    ans = {'exc': 'UnicodeEncodeError'}
+        if ans.get('exc') == 'UnicodeError':
+            ans = {'exc': 'UnicodeEncodeError'}        # PyExc has one constructor for the UnicodeError family
         if 'ok' in ans:
             m = ans['ok']
             mh = {common.from_cps(k): common.from_cps(v) for k, v in m['headers']}
@@ -1429,6 +1427,39 @@ def part_cdata(run, n_obj, n_req):
                     run.violate({'kind': 'no_request_no_exception', 'op': name, 'cdata': True}, case, real)
     finally:
         _cim_xml._CDATA_ESCAPING = old
+
+
+def _sort_attrs(j):
+    if j is None or 'x' in j:
+        return j
+    return {'e': j['e'], 'a': sorted(j['a']), 'c': [_sort_attrs(k) for k in j['c']]}
+
+
+def part_parser(run, n):
+    """the proved parser model `XmlParse.par` against the real receiving side (xml_to_tupletree_sax over expat) on the
+    documents this run really emitted (object texts, request bodies with their XML declaration, listener responses);
+    and validTree on the tree the parser returns against lxml's verdict on the same text"""
+    from pywbem._tupletree import xml_to_tupletree_sax
+    docs = run.__dict__.get('docs', [])
+    if len(docs) > n:
+        docs = run.rng.sample(docs, n)
+    reqs = [{'op': 'par', 'text': cimproto.cps(text)} for _, text, _ in docs]
+    answers = common.run_driver(PROP, reqs) if reqs else []
+    for (where, text, verdict), ans in zip(docs, answers):
+        run.evaluations += 1
+        try:
+            real = cimproto.tt_to_json(xml_to_tupletree_sax(text, 'C03'))
+        except Exception as e:  # noqa
+            real = None
+        model = _sort_attrs(ans.get('tree'))
+        run.count('par:%s:%s' % (where, 'accepted' if real is not None else 'rejected'))
+        case = {'where': where, 'document': text[:1500]}
+        if model != real:
+            run.disagree(case, json.dumps(model)[:800], json.dumps(real)[:800],
+                         'parser: XmlParse.par vs xml_to_tupletree_sax on a real document')
+        elif model is not None and ans['valid'] != (verdict == 'ok'):
+            run.disagree(case, {'validTree(par text)': ans['valid'], 'why': ans.get('why')}, {'lxml': verdict},
+                         'validator on the received tree: validTree (par text) vs lxml')
 
 
 # ----------------------------------------------------------------------------- part 4: listener
@@ -1578,8 +1609,9 @@ def run(run):
         'Codec / KeyCodec hypothesis records (float printing, CIMDateTime) instantiated by tables computed with Python for '
         'the inputs of this run',
         'lxml/libxml2 is the judge of well-formedness and DTD validity of the real documents',
-        'requests\' header-value validation and http.client\'s latin-1 header encoding (third party) are emulated in the '
-        'harness: a request whose CIMObject/CIMMethod header they refuse counts as a local failure',
+        'requests\' header-value validation and http.client\'s latin-1 header encoding are modelled (Request.transport); on '
+        'the real side requests runs for real and the captured request is passed through the real '
+        'http.client.HTTPConnection.putrequest/putheader (buffer only): a request they refuse counts as a local failure',
         'element-level minidom printing is modelled by Xml.ser and compared byte for byte on every document',
     ]
     trees = part_objects(run, 30000 if th else 4000, 6000 if th else 800, 1500 if th else 300)
@@ -1589,6 +1621,7 @@ def run(run):
     part_values(run, 3000 if th else 400)
     part_cdata(run, 6000 if th else 800, 6000 if th else 800)
     part_listener(run, 1500 if th else 200)
+    part_parser(run, 12000 if th else 1500)
 
 
 def oracle_only(run):
